@@ -223,7 +223,8 @@ FLOAT_BITS = ["0000000000000000", "8000000000000000", "3ff0000000000000", "bff00
               "7fefffffffffffff", "3fb999999999999a", "400921fb54442d18", "c1e0000000000000", "41dfffffffc00000"]
 TEXTS = ["", "a", "abc", "héllo", "日本語", "\U0001f600", "a\x00b", "line\nbreak", "tab\tq\"uote'", " lead", "x" * 31,
          "y" * 32, "z" * 255, "w" * 256, "ab\udcff\udcfecd", "\udc80", "caf\udce9", "\udcc3(", "é" * 20, "\\back\\slash",
-         "comma,semi;colon:", "{curly}", "%s %d", "\r\n", "\u2028", "\ufeffbom", "\x7f\x1b[0m"]
+         "comma,semi;colon:", "{curly}", "%s %d", "\r\n", "\u2028", "\ufeffbom", "\x7f\x1b[0m", "RECORDSTREAM\n",
+         "xxRECORDSTREAM\nyy", "Obj\x01", "\x1f\x8b\x08"]
 ZONES = ["Europe/Amsterdam", "America/New_York", "Asia/Kolkata", "Australia/Lord_Howe", "UTC"]
 
 
@@ -334,6 +335,9 @@ def gen_value(r, ftype, depth=0, none_chance=12):
     if t in ("string", "wstring", "uri"):
         return S(gen_text(r))
     if t == "bytes":
+        if r.chance(6):
+            return B(r.choice([b"RECORDSTREAM\n", b"\x00\x00\x00\x0f\xc4\x0dRECORDSTREAM\n", b"\xc4\x0dRECORDSTREAM\nzz",
+                               b"\x1f\x8b", b"BZh9", b"Obj\x01"]))
         return B(r.bytes(r.choice([0, 1, 2, 31, 32, 255, 256, r.randint(0, 40)])))
     if t == "datetime":
         return gen_dt_spec(r)
